@@ -460,6 +460,13 @@ func (c *c02scen) runRandom() error {
 				net.Cut(c.idx(a), c.idx(b))
 				c.trace("cut %d %d", a, b)
 				r.Count("cut")
+				if r.Rng.Intn(3) == 0 {
+					// the two still see each other join the topic, but the direct channel between
+					// them is down: the head exchange they attempt fails
+					net.JoinWhileCut(c.idx(a), c.idx(b))
+					c.settle("join-while-cut")
+					r.Count("join-while-cut")
+				}
 			}
 		case x < 92:
 			a, b := r.Rng.Intn(n), r.Rng.Intn(n)
